@@ -275,7 +275,18 @@ class _Builder:
             v: Any = d(st.one_of(st.integers(0, 40), st.sampled_from([255, 256, 65535, 2**31 - 1, 2**32, 2**63 - 1])))
             if d(st.booleans()) and v > 0:
                 # simple expression forms
-                form = d(st.integers(0, 3))
+                form = d(st.integers(0, 8))
+                if form >= 4:
+                    # unparenthesised chains: operators of one level associate to the LEFT, * and / bind tighter
+                    b, c = d(st.integers(1, 9)), d(st.integers(2, 9))
+                    text = {
+                        4: f"{v + b + c} - {b} - {c}",
+                        5: f"{v * b * c} / {b} / {c}",
+                        6: f"{v + b} - {b + c} + {c}",
+                        7: f"{v * b * c} / {c} * 1 / {b}",
+                        8: f"{v + b * c} - {b} * {c}",
+                    }[form]
+                    return Const(name, v, text)
                 if form == 0:
                     a = d(st.integers(0, v))
                     return Const(name, v, f"{a} + {v - a}")
@@ -827,6 +838,11 @@ def basis_values(m: Message, limit_bits: int = 512) -> List[Tuple[str, Dict[str,
     if lvs:
         smax = [ref.leaf_range(lf)[1] if lf.kind in ("int", "uint", "byte") else x for lf, x in zip(lvs, mx)]
         out.append(("max", build_value(m, smax)))
+    if len(lvs) >= 2:
+        # neighbours in opposite states: every leaf all-ones between all-zero neighbours and the complement (a carry,
+        # a mask one bit too wide or a shared temporary shows only when adjacent fields differ)
+        out.append(("alt0", build_value(m, [mx[i] if i % 2 == 0 else zero[i] for i in range(len(lvs))])))
+        out.append(("alt1", build_value(m, [mx[i] if i % 2 == 1 else zero[i] for i in range(len(lvs))])))
     total = sum(lf.bits for lf in lvs)
     if total <= limit_bits:
         for i, lf in enumerate(lvs):
